@@ -27,6 +27,9 @@ mod gen_pair;
 mod mon_pair;
 mod eng_attr;
 mod eng_file70;
+mod eng_pairtcp;
+mod gen_pairtcp;
+mod mon_pairtcp;
 
 use std::io::Write;
 
@@ -59,6 +62,7 @@ fn main() {
                 "pairsync" => gen_pair::gen(thorough, seed, &mut out, gen_pair::Profile::Sync),
                 "pairdata" => gen_pair::gen(thorough, seed, &mut out, gen_pair::Profile::Data),
                 "pairmerge" => gen_pair::gen(thorough, seed, &mut out, gen_pair::Profile::Merge),
+                "pairtcp" => gen_pairtcp::gen(thorough, seed, &mut out),
                 "outstationdb" => gen_outstation::gen(thorough, seed, &mut out, gen_outstation::GenCfg { with_db: true }),
                 _ => {
                     eprintln!("unknown engine {engine}");
@@ -85,6 +89,7 @@ fn main() {
                 "master" => eng_master::run(&ops, &mut out, &mut mon),
                 "pair" | "pairsync" | "pairdata" => eng_pair::run(&ops, &mut out, &mut mon, false),
                 "pairmerge" => eng_pair::run(&ops, &mut out, &mut mon, true),
+                "pairtcp" => eng_pairtcp::run(&ops, &mut out, &mut mon, Some(&format!("{}.trace", args[4]))),
                 "rawbytes" => eng_rawbytes::run(&ops, &mut out, &mut mon, Some(&format!("{}.trace", args[4]))),
                 _ => {
                     eprintln!("unknown engine {engine}");
